@@ -39,14 +39,18 @@ MIMES = {"audio": ["audio/opus", "audio/G722", "audio/PCMU", "audio/PCMA"], "vid
 class SimMediaTrack(MediaStreamTrack):
     """Yields pre-encoded packets (the sender then runs the real packetiser)."""
 
-    def __init__(self, kind, serial):
+    def __init__(self, kind, serial, limit=None):
         super().__init__()
         self.kind = kind
         self.n = 0
         self.serial = serial
+        self.limit = limit       # a finite source (file, recording) ends on its own
 
     async def recv(self):
         if self.readyState != "live":
+            raise MediaStreamError
+        if self.limit is not None and self.n >= self.limit:
+            self.stop()
             raise MediaStreamError
         await asyncio.sleep(0.02 if self.kind == "audio" else 0.04)
         self.n += 1
@@ -147,12 +151,12 @@ class Endpoint:
 
         def go():
             if it["how"] == "addTrack":
-                tr = SimMediaTrack(it["kind"], w.track_serial)
+                tr = SimMediaTrack(it["kind"], w.track_serial, w.cfg.get("track_limit"))
                 self.tracks.append(tr)
                 sender = pc.addTrack(tr)
                 t = next(x for x in pc.getTransceivers() if x.sender is sender)
             elif it["how"] == "transceiver_track":
-                tr = SimMediaTrack(it["kind"], w.track_serial)
+                tr = SimMediaTrack(it["kind"], w.track_serial, w.cfg.get("track_limit"))
                 self.tracks.append(tr)
                 t = pc.addTransceiver(tr, direction=it["direction"])
             else:
@@ -737,3 +741,439 @@ class C14World(PcWorld):
 
 def run_c14(spec):
     return run_world(spec, gen_c14, C14World)
+
+
+# ===========================================================================
+# C19: close() at every scheduler step
+# ===========================================================================
+STRATA = 64          # close points per scenario (stratified over its length)
+PC_EVENTS = ("track", "datachannel", "signalingstatechange", "connectionstatechange", "iceconnectionstatechange",
+             "icegatheringstatechange")
+
+
+class DummyDecoder:
+    def decode(self, encoded_frame):
+        return []
+
+
+def gen_c19(ch, spec):
+    from ..choices import Choices, derive_seed
+    run = spec.get("run", 0)
+    scen = spec.get("scenario", run // STRATA)
+    cs = Choices(seed=derive_seed(spec.get("seed", 0), "C19-scenario", scen), record=False)
+    a = gen_side(cs, True)
+    b = gen_side(cs, False)
+    if not a["items"]:
+        a["items"] = gen_items(cs, 1)
+    cfg = {"world": "c19", "A": a, "B": b, "scenario": scen,
+           "sig_delay": cs.choice("cfg", [0.0, 0.05, 0.4]), "net_base": cs.choice("cfg", [0.001, 0.03]),
+           "sched": True, "stall_rate": 0.0, "stall_max": 0.0,
+           "flow": cs.choice("cfg", [0.3, 1.0, 2.5]), "renegotiate": cs.chance("cfg", 0.3),
+           "track_limit": cs.choice("cfg", [None, None, 3, 20])}
+    j = spec.get("stratum", run % STRATA)
+    # where in the scenario (as a fraction of its scheduler steps) close() is injected; a little beyond the end too
+    cfg["close_frac"] = round((j + ch.uniform("cfg", 0.0, 1.0)) / STRATA * 1.08, 5)
+    if spec.get("sweep"):
+        # systematic sweep: the run index *is* the close point (every `stride`-th scheduler step of one scenario)
+        cfg["close_k"] = run * spec["sweep"]["stride"] + spec["sweep"].get("offset", 0)
+    cfg["who"] = ch.choice("cfg", ["A", "B", "A", "B", "both", "A-twice", "B-twice", "vanish-B-close-A", "vanish-A-close-B",
+                                   "both-staggered"])
+    if spec.get("sweep"):
+        cfg["who"] = spec["sweep"]["who"]
+    cfg["stagger"] = ch.choice("cfg", [1, 3, 20, 200])
+    return cfg, []
+
+
+class C19World(C03World):
+    decoder_threads = True
+
+    def __init__(self, spec, ch, cfg, ops):
+        super().__init__(spec, ch, cfg, ops)
+        self.threads = []          # (node, thread, input queue)
+        world = self
+        real_thread = threading.Thread
+
+        class TrackedThread(real_thread):
+            def __init__(self, *a, **kw):
+                super().__init__(*a, **kw)
+                from ..loop import NODE
+                args = kw.get("args") or ()
+                world.threads.append((NODE.get(), self, args[1] if len(args) > 1 else None))
+
+        class ThreadingMod:
+            Thread = TrackedThread
+
+        self.rebind(rxmod, "threading", ThreadingMod)
+        self.rebind(rxmod, "get_decoder", lambda codec: DummyDecoder())
+        self.steps_at = None
+        self.close_k = None
+        self.closing = {}          # node -> {"task":, "t0":, "steps0":}
+        self.consumers = {}        # node -> [ {"track":, "ended": bool} ]
+        self.phase = "reference"
+        self.done_scenario = False
+
+    def cleanup(self):
+        # let every decoder thread of this run finish before the loop goes away
+        for node, th, q in self.threads:
+            if th.is_alive() and q is not None:
+                try:
+                    q.put(None)
+                except Exception:  # noqa
+                    pass
+        for node, th, q in self.threads:
+            if th.is_alive():
+                th.join(timeout=2.0)
+        super().cleanup()
+
+    # -- the scenario (what the two applications do when nobody closes) -----------------------
+    def consume(self, n, track):
+        rec = {"track": track, "ended": False, "frames": 0}
+        self.consumers.setdefault(n, []).append(rec)
+
+        async def loop_():
+            try:
+                while True:
+                    await track.recv()
+                    rec["frames"] += 1
+            except MediaStreamError:
+                rec["ended"] = True
+            except asyncio.CancelledError:
+                raise
+            except Exception:  # noqa
+                rec["ended"] = "error"
+
+        self.loop.create_task(loop_(), context=self.ep[n].ctx)
+
+    async def scenario(self):
+        cfg = self.cfg
+        for n in "AB":
+            self.ep[n] = Endpoint(self, n, cfg[n])
+            self.ep[n].pc.on("track", lambda tr, n=n: self.consume(n, tr))
+        for n in "AB":
+            try:
+                self.ep[n].setup()
+            except Exception:  # noqa
+                return
+        await self.quiet_negotiate("A", "B")
+        await self.wait_for(lambda: all(self.ep[n].pc.connectionState in ("connected", "closed", "failed") for n in "AB"), 20.0)
+        # data flows both ways for a while
+        t_end = self.loop.time() + cfg["flow"]
+        i = 0
+        while self.loop.time() < t_end:
+            for n in "AB":
+                for c in self.ep[n].channels + self.ep[n].remote_channels:
+                    if c.readyState == "open":
+                        try:
+                            self.ep[n].ctx.run(c.send, "m%d" % i)
+                        except Exception:  # noqa
+                            pass
+            i += 1
+            await asyncio.sleep(0.1)
+        if cfg.get("renegotiate") and self.ep["B"].pc.signalingState != "closed":
+            # (an application does not create channels on a connection it has closed; createDataChannel
+            # would not refuse, and the events of the transport it creates are not close()'s doing)
+            try:
+                self.ep["B"].add_channel("late-B")
+            except Exception:  # noqa
+                pass
+            await self.quiet_negotiate("B", "A")
+            await asyncio.sleep(0.5)
+        self.done_scenario = True
+
+    async def quiet_negotiate(self, offerer, answerer):
+        """Offer/answer; whatever the calls raise once somebody has closed is ignored (C19 says so)."""
+        X, Y = self.ep[offerer], self.ep[answerer]
+        exc, offer = await self.call(offerer, X.pc.createOffer)
+        if exc is not None:
+            return
+        exc, _ = await self.call(offerer, X.pc.setLocalDescription, offer)
+        if exc is not None or X.pc.localDescription is None:
+            return
+        text = X.pc.localDescription.sdp
+        await self.signal()
+        exc, _ = await self.call(answerer, Y.pc.setRemoteDescription, RTCSessionDescription(sdp=text, type="offer"))
+        if exc is not None:
+            return
+        exc, answer = await self.call(answerer, Y.pc.createAnswer)
+        if exc is not None:
+            return
+        exc, _ = await self.call(answerer, Y.pc.setLocalDescription, answer)
+        if exc is not None or Y.pc.localDescription is None:
+            return
+        text = Y.pc.localDescription.sdp
+        await self.signal()
+        await self.call(offerer, X.pc.setRemoteDescription, RTCSessionDescription(sdp=text, type="answer"))
+
+    # -- close injection ------------------------------------------------------------------------
+    def start_close(self, n):
+        if n in self.closing:
+            return
+        pc = self.ep[n].pc
+        rec = {"t0": self.loop.time(), "steps0": self.loop.steps, "state_at": (pc.signalingState, pc.connectionState,
+                                                                              pc.iceConnectionState)}
+        rec["task"] = self.loop.create_task(pc.close(), context=self.ep[n].ctx)
+        self.closing[n] = rec
+        self.log.add("close", n, rec["state_at"])
+        self.probes["close_in_" + pc.connectionState] += 1
+        self.probes["close_in_signaling_" + pc.signalingState] += 1
+
+    def hook(self):
+        if self.close_k is None or self.loop.steps < self.close_k or getattr(self, "_fired", False):
+            return
+        if len(self.ep) < 2:
+            return      # the peer connections do not exist yet: the earliest close point is right after construction
+        self._fired = True
+        who = self.cfg["who"]
+        try:
+            if who in ("A", "B"):
+                self.start_close(who)
+            elif who == "both":
+                self.start_close("A")
+                self.start_close("B")
+            elif who == "both-staggered":
+                self.start_close("A")
+                self._second = ("B", self.loop.steps + self.cfg["stagger"])
+            elif who.endswith("-twice"):
+                n = who[0]
+                self.start_close(n)
+                self.closing[n]["task2"] = self.loop.create_task(self.ep[n].pc.close(), context=self.ep[n].ctx)
+            elif who.startswith("vanish-"):
+                gone, closer = who[7], who[-1]
+                for c in self.fabric.conns:
+                    if c.node == gone:
+                        c.vanish()
+                self.probes["remote_vanished"] += 1
+                self._second = (closer, self.loop.steps + self.cfg["stagger"] * 50)
+        except Exception as exc:  # noqa
+            self.harness_note(exc)
+
+    def hook2(self):
+        self.hook()
+        sec = getattr(self, "_second", None)
+        if sec is not None and self.loop.steps >= sec[1]:
+            self._second = None
+            try:
+                self.start_close(sec[0])
+            except Exception as exc:  # noqa
+                self.harness_note(exc)
+
+    async def main(self):
+        # the length of the scenario in scheduler steps comes from a reference execution of the same
+        # scenario without close (done by run_c19 in a world of its own) unless the replay pins the step
+        self.close_k = self.spec["close_k"]
+        self.loop.step_hook = self.hook2
+        self.phase = "run"
+        scen = self.loop.create_task(self.scenario())
+        # wait for the injected close(s) to be issued (the scenario may end first: then close at the end)
+        await self.wait_for(lambda: bool(self.closing) or scen.done(), 120.0, poll=0.05)
+        if not self.closing:
+            self._fired = True
+            who = self.cfg["who"]
+            for n in ("AB" if who.startswith("both") else (who[-1] if who.startswith("vanish") else who[0])):
+                self.start_close(n)
+            self.probes["closed_after_scenario_end"] += 1
+        await self.wait_for(lambda: getattr(self, "_second", None) is None, 60.0, poll=0.05)
+        await self.judge()
+        # tidy up: the scenario and the surviving peer
+        if not scen.done():
+            scen.cancel()
+        for n in "AB":
+            if n not in self.closing:
+                try:
+                    await asyncio.wait_for(self.loop.create_task(self.ep[n].pc.close(), context=self.ep[n].ctx), 60.0)
+                except BaseException:  # noqa
+                    pass
+        self.link_faults(self.fabric.links)
+
+    async def judge(self):
+        loop = self.loop
+        for n, rec in list(self.closing.items()):
+            pc = self.ep[n].pc
+            t = rec["task"]
+            try:
+                await asyncio.wait_for(asyncio.shield(t), 120.0)
+            except asyncio.TimeoutError:
+                where = self.where_stuck(t)
+                self.violation("C19", "close-does-not-complete:" + where,
+                               "close() on %s issued at step %d (states %r) still pending after 120 simulated seconds; waiting in %s" % (
+                                   n, rec["steps0"], rec["state_at"], where))
+                continue
+            except asyncio.CancelledError:
+                raise
+            except Exception as exc:  # noqa
+                self.violation("C19", "close-raised:" + exc_tag(exc), "close() on %s: %r" % (n, exc))
+                continue
+            rec["dt"] = loop.time() - rec["t0"]
+            self.probes["close_completed"] += 1
+            if "task2" in rec:
+                try:
+                    await asyncio.wait_for(asyncio.shield(rec["task2"]), 5.0)
+                except Exception as exc:  # noqa
+                    self.violation("C19", "second-close-fails:" + type(exc).__name__, "on %s: %r" % (n, exc))
+            # calling it again is a no-op
+            s0 = loop.steps
+            try:
+                await asyncio.wait_for(loop.create_task(pc.close(), context=self.ep[n].ctx), 5.0)
+            except Exception as exc:  # noqa
+                self.violation("C19", "close-again-fails:" + type(exc).__name__, "on %s: %r" % (n, exc))
+            states = (pc.signalingState, pc.iceConnectionState, pc.connectionState)
+            if states != ("closed", "closed", "closed"):
+                self.violation("C19", "states-not-closed-after-close:%s/%s/%s" % states,
+                               "%s after close(): signaling/ice/connection = %r (closed at step %d in %r)" % (
+                                   n, states, rec["steps0"], rec["state_at"]))
+            chans = self.ep[n].channels + self.ep[n].remote_channels
+            open_ = [(c.label, c.readyState) for c in chans if c.readyState != "closed"]
+            if open_:
+                self.violation("C19", "data-channel-not-closed-after-close", "%s: %r" % (n, open_))
+            # events after close returned: listen afresh (close() removed the old listeners)
+            fired = []
+            for ev in PC_EVENTS:
+                pc.on(ev, lambda *a, ev=ev: fired.append(ev))
+            rec["fired"] = fired
+        if not self.closing:
+            return
+        await asyncio.sleep(3.0)        # grace period
+        import threading as _th
+        for n, rec in self.closing.items():
+            if "dt" not in rec:
+                continue
+            if rec["fired"]:
+                self.violation("C19", "event-fired-after-close-returned:" + rec["fired"][0], "%s: %r" % (n, rec["fired"][:5]))
+            live = [c for c in self.consumers.get(n, []) if not c["ended"]]
+            if live:
+                self.violation("C19", "received-track-not-ended-after-close", "%s: %d of %d consumers still waiting in recv()" % (
+                    n, len(live), len(self.consumers.get(n, []))))
+            leaked = self.leaked_tasks(n)
+            if leaked:
+                self.violation("C19", "task-left-running-after-close:" + leaked[0], "%s: %r (closed at step %d in %r)" % (
+                    n, leaked[:5], rec["steps0"], rec["state_at"]))
+            alive = [th.name for node, th, q in self.threads if node == n and th.is_alive()]
+            if alive:
+                self.violation("C19", "decoder-thread-left-running-after-close", "%s: %r" % (n, alive))
+            self.note_state("%s|%s" % rec["state_at"][:2])
+
+    def where_stuck(self, task):
+        try:
+            frames = task.get_stack()
+            for f in reversed(frames):
+                fn = f.f_code.co_filename
+                if "aiortc" in fn and "simrtc" not in fn:
+                    return "%s.%s" % (fn.rsplit("/", 1)[-1].replace(".py", ""), f.f_code.co_name)
+            # walk the await chain
+            c = task.get_coro()
+            name = "?"
+            while c is not None:
+                code = getattr(c, "cr_code", None) or getattr(c, "gi_code", None)
+                if code is not None and "aiortc" in code.co_filename and "simrtc" not in code.co_filename:
+                    name = "%s.%s" % (code.co_filename.rsplit("/", 1)[-1].replace(".py", ""), code.co_name)
+                c = getattr(c, "cr_await", None) or getattr(c, "gi_yieldfrom", None)
+            return name
+        except Exception:  # noqa
+            return "?"
+
+    def leaked_tasks(self, n):
+        from ..loop import NODE
+        out = []
+        for t in asyncio.all_tasks(self.loop):
+            if t.done():
+                continue
+            try:
+                node = t.get_context().get(NODE, "main")
+            except Exception:  # noqa
+                continue
+            if node != n:
+                continue
+            coro = t.get_coro()
+            code = getattr(coro, "cr_code", None)
+            if code is None or "aiortc" not in code.co_filename or "simrtc" in code.co_filename:
+                continue
+            out.append("%s.%s" % (code.co_filename.rsplit("/", 1)[-1].replace(".py", ""), coro.__qualname__.split(".")[-1]))
+        return sorted(out)
+
+    def config_class(self):
+        return self.cfg["who"]
+
+    def nontrivial(self):
+        return self.probes.get("close_completed", 0) > 0 or bool(self.violations)
+
+    def sample(self):
+        return {"close_at_step": self.close_k, "who": self.cfg["who"],
+                "closed_in": {n: r.get("state_at") for n, r in self.closing.items()}}
+
+
+class C19Reference(C19World):
+    """The same scenario without any close: only its length in scheduler steps is of interest."""
+
+    async def main(self):
+        scen = self.loop.create_task(self.scenario())
+        await self.wait_for(lambda: scen.done(), 120.0, poll=0.05)
+        self.ref_steps = self.loop.steps
+        for n in "AB":
+            if n in self.ep:
+                try:
+                    await asyncio.wait_for(self.loop.create_task(self.ep[n].pc.close(), context=self.ep[n].ctx), 60.0)
+                except BaseException:  # noqa
+                    pass
+
+
+def run_c19(spec):
+    from ..choices import Choices, derive_seed
+    from .common import build_choices, execute_world, finish
+    spec = dict(spec)
+    spec["seed_int"] = derive_seed(spec.get("seed", 0), spec["property"], spec.get("run", 0)) & 0xFFFFFFFF
+    ch, cfg, ops = build_choices(spec, gen_c19)
+    if "close_k" not in cfg:
+        # reference execution: how many scheduler steps does this scenario take?
+        ref_ch = Choices(seed=spec["seed_int"], record=False)
+        ref, h = execute_world(C19Reference, dict(spec, close_k=None), ref_ch, cfg, ops)
+        n = getattr(ref, "ref_steps", None)
+        if h or n is None:
+            return {"verdict": "harness_error", "detail": "reference run failed: %r" % (h,)}
+        cfg["ref_steps"] = n
+        cfg["close_k"] = int(cfg["close_frac"] * n)
+    spec["close_k"] = cfg["close_k"]
+    world, harness = execute_world(C19World, spec, ch, cfg, ops)
+    return finish(world, spec, ch, cfg, ops, harness)
+
+
+def c19_reference_steps(spec):
+    """Length (scheduler steps) of one scenario, for the systematic sweep."""
+    from ..choices import Choices, derive_seed
+    from .common import build_choices, execute_world
+    spec = dict(spec, run=0)
+    spec["seed_int"] = derive_seed(spec.get("seed", 0), spec["property"], 0) & 0xFFFFFFFF
+    ch, cfg, ops = build_choices(spec, gen_c19)
+    ref, h = execute_world(C19Reference, dict(spec, close_k=None), Choices(seed=spec["seed_int"], record=False), cfg, ops)
+    return getattr(ref, "ref_steps", None)
+
+
+def c19_post(agg, base_spec, tier):
+    """fault enumeration proper: for a few scenarios, close() at every `stride`-th scheduler step from
+    0 to the end, by one side and by both at once."""
+    from ..runner import explore, fork_run
+    import time as _t
+    out = {"sweeps": []}
+    budget = 25.0 if tier == "quick" else 240.0
+    plans = [(0, "A"), (1, "B")] if tier == "quick" else [(0, "A"), (0, "both"), (1, "B"), (2, "A"), (3, "both"), (4, "B")]
+    t_each = budget / len(plans)
+    for scen, who in plans:
+        spec = dict(base_spec, scenario=scen, stratum=0)
+        res = fork_run(_ref_entry, spec)
+        n = res.get("ref_steps")
+        if not n:
+            continue
+        target = 120 if tier == "quick" else 100000
+        stride = max(1, n // target)
+        sweep = dict(base_spec, scenario=scen, sweep={"stride": stride, "who": who})
+        sub = explore(run_c19, sweep, t_each, n // stride + 2)
+        out["sweeps"].append({"scenario": scen, "who": who, "scenario_steps": n, "stride": stride,
+                              "close_points_tried": sub.runs, "complete": sub.runs >= n // stride + 1,
+                              "violations": dict(sub.violation_count)})
+        merged = sub.to_json()
+        agg.merge_json(merged)
+    out["exhaustive_over_close_points"] = bool(out["sweeps"]) and all(s["complete"] and s["stride"] == 1 for s in out["sweeps"])
+    return out
+
+
+def _ref_entry(spec):
+    return {"verdict": "ok", "ref_steps": c19_reference_steps(spec)}
